@@ -12,8 +12,7 @@ import out_impl
 
 META = {
     'theorem_files': ['Props/C19.v'],
-    'theorems': ['C19_escape_safe', 'C19_escape_recoverable', 'C19_segment_text', 'C19_no_foreign_markup',
-                 'C19_heading_escaped', 'C19_footer_text'],
+    'theorems': ['C19_escape_safe', 'C19_escape_recoverable', 'C19_segment_text', 'C19_no_foreign_markup', 'C19_heading_escaped', 'C19_footer_text', 'C19_doc_calls', 'C19_doc_text', 'C19_doc_strip', 'C19_doc_nodes', 'C19_doc_errors_kept', 'C19_errors_not_all_shown'],
     'trusted_base': [
         'Coq 8.16.1 kernel; vm_compute for 256-character sweeps; no native_compute',
         'Model/Html.v, Model/ErrIter.v: hand transcription of error_html.py and err_iter (tied by this run: scripts of handler '
